@@ -170,6 +170,17 @@ def r13_3(ctx, fx):
         bad = [n for n in okexits if n in r]
         ctx.ob("R13.3", "on_send_request/Ok-implies-stored", not bad, site=fn.site(fn.entry), cfg=fx.cfg,
                detail="Ok exits reachable without storing the request: %s" % [fn.site(n) for n in bad])
+        # ... and Err implies NOT stored (the caller reports RequestFailed for an Err: a request that also stays queued would get
+        # a second terminal outcome later): no Err exit is reachable after a store unless the stored request is taken out again
+        errexits = [n for n, sh in fn.exits() if any(not x.startswith("Ok") for x in sh)]
+        unstore = {c.node for c in field_calls(fn, r"HashMap::remove$", "pending_dials")} | {c.node for c in field_calls(fn, r"HashMap::remove$", "pending_outbound")} | \
+                  {c.node for c in fn.calls(r"(Vec|VecDeque)(<.*>)?::(pop|pop_back|clear)$")}
+        bad2 = []
+        for st in stores:
+            r2 = fn.reach([st], after=True, avoid=unstore)
+            bad2 += [fn.site(n) for n in errexits if n in r2]
+        ctx.ob("R13.3", "on_send_request/Err-implies-not-stored", not bad2, site=fn.site(fn.entry), cfg=fx.cfg,
+               detail="Err exits reachable after the request was parked in pending_dials / pending_outbound: %s" % sorted(set(bad2)))
         # the active set gets the request id on the connected path
         act = field_calls(fn, r"HashSet::insert$", "active")
         ctx.ob("R13.3", "on_send_request/active-insert-before-pending_outbound", bool(act) and all(
